@@ -47,7 +47,8 @@ def base_matrix(cls, rng):
 
 def _sp(F):
     u = lib().utils
-    return u.SparseQuaternionMatrix(*[sparse.csr_matrix(F[..., c]) for c in range(4)], F.shape[:2])
+    from ..qlib import sp_quat
+    return sp_quat(F)
 
 
 def build(ep, cls, rng):
@@ -67,6 +68,12 @@ def build(ep, cls, rng):
     elif cls == "nonhermitian_diagonal":
         F = F.copy()
         F[1, 1, 2] += 0.3 * float(np.max(np.abs(F)))          # Hermitian off-diagonal part, non-real diagonal entry
+    elif cls.startswith("nonhermitian_diagonal_"):
+        F = F.copy()
+        F[1, 1, "wxyz".index(cls[-1])] += 0.3 * float(np.max(np.abs(F)))           # one component of one diagonal entry
+    elif cls.startswith("nonhermitian_") and cls[-1] in "wxyz" and cls[-2] == "_":
+        F = F.copy()
+        F[0, 2, "wxyz".index(cls[-1])] += 0.05 * float(np.max(np.abs(F)))          # asymmetry confined to one component
     elif cls == "too_small":
         F = np.array([[[2.5, 0.0, 0.0, 0.0]]])
     elif cls == "wide_for_tall":
